@@ -116,6 +116,18 @@ theorem rr_fair_children_partial (b : Bool) (ops : List (Op × List Del)) (p : P
   let i := (Lemmas.EpShard.inv_run _ (Lemmas.EpShard.inv_init b) ops).last p hl
   Lemmas.EpShard.windowFair_of_inv p i.1 i.2 next k hw
 
+/-- … and the same for every SUPERSEDED picker the channel may still be picking on (RPCs that fetched
+    it before a picker update): each picker generation has its own position, so in every history any k
+    consecutive picks on the g-th most recently superseded picker — whatever was picked on other
+    generations in between — give each of ITS children ⌊k/n⌋ or ⌈k/n⌉ picks (no index wrap). -/
+theorem rr_fair_superseded_partial (b : Bool) (ops : List (Op × List Del)) (g : Nat) (p : Pushed) (w : List Del)
+    (hg : (run (init b) ops).olds[g]? = some (p, w)) (k : Nat) (hw : p.next.toNat + k < 4294967296) :
+    windowFair p (pickSeq p.pickers p.next k).2 = true ∧
+    (step (run (init b) ops) (.pickold g k) []).2.picks = some (pickSeq p.pickers p.next k).2 := by
+  have ho := (Lemmas.EpShard.inv_olds_run _ (Lemmas.EpShard.inv_init b) (by intro pw h; simp [init] at h) ops).2
+  have hm := ho (p, w) (List.mem_of_getElem? hg)
+  exact ⟨Lemmas.EpShard.windowFair_of_inv p hm.1 hm.2 p.next k hw, by simp [step, doPickOld, hg]⟩
+
 /-- F8: without the no-wrap hypothesis the statement is false — three READY children, index
     2^32−3, three picks: one child is picked twice, one never. -/
 theorem rr_wrap_counterexample :
